@@ -11,7 +11,7 @@ from ..symx import SBool, SNum, SymRGB, lift, sbool
 
 ID = "C12"
 
-KINDS = ["T2", "T3", "S2", "L3", "INV_S", "INV_T", "INV_BG"]
+KINDS = ["T2", "T3", "S2", "S3", "L3", "INV_S", "INV_T", "INV_BG"]
 
 META = dict(
     explanation=(
@@ -40,7 +40,8 @@ def jobs(tier):
     for k in KINDS:
         js.append(dict(kind="bulk", shape=[k]))
     for a, b in itertools.product(KINDS, repeat=2):
-        if tier == "quick" and not (a in CHEAP and b in CHEAP) and not ((a in CHEAP or b in CHEAP) and "INV_S" in (a, b)):
+        if tier == "quick" and not (a in CHEAP and b in CHEAP) and not ((a in CHEAP or b in CHEAP) and "INV_S" in (a, b)) \
+                and (a, b) not in (("S3", "S2"), ("S2", "S3")):
             continue
         if a not in CHEAP[1:] and b not in CHEAP[1:] and (a != "S2" or b != "S2"):
             # two fully symbolic valid entries: ~1300 paths; split over 6 shards
@@ -101,6 +102,9 @@ def run_job(job):
             d["large"] = lg
         elif kind == "S2":
             d["entry"] = ("rgb(%s, %s, %s)" % tuple(t), "rgb(%s,%s,%s)" % tuple(b))
+        elif kind == "S3":
+            d["entry"] = ("rgb(%s, %s, %s)" % tuple(t), "rgb(%s,%s,%s)" % tuple(b), lg)
+            d["large"] = lg
         elif kind == "INV_S":
             d["entry"] = ("not-a-colour", b, lg)
             d["valid"] = False
@@ -195,6 +199,8 @@ def replay_bulk(inp):
             entries.append([list(t), b, lg])
         elif k == "S2":
             entries.append(("rgb(%d, %d, %d)" % t, "rgb(%d,%d,%d)" % b))
+        elif k == "S3":
+            entries.append(("rgb(%d, %d, %d)" % t, "rgb(%d,%d,%d)" % b, lg))
         elif k == "INV_S":
             entries.append(("not-a-colour", b, lg))
         elif k == "INV_T":
@@ -233,6 +239,14 @@ def _ladder(job):
     from ..ladder import pairs
     ps = list(pairs())
     n = len(job["shape"])
+    # repeated colours with different sizes first (state carried from one entry to the next shows up there)
+    for t, b in ps[::5]:
+        for mode in (1, 0):
+            d = dict(mode=mode, very=False)
+            for i in range(n):
+                d.update({"t%dr" % i: t[0], "t%dg" % i: t[1], "t%db" % i: t[2], "b%dr" % i: b[0], "b%dg" % i: b[1], "b%db" % i: b[2],
+                          "large%d" % i: (i % 2 == 0), "bad%d" % i: 300})
+            yield d
     for k in range(0, len(ps) - n, 7):
         for large in (False, True):
             for mode in (0, 1):
